@@ -250,6 +250,12 @@ func (c *Classifier) Normalize(in []byte) []byte {
 
 	prevLine := 1
 	buf.WriteString(c.dict.getWord(doc.Tokens[0].ID))
+	if c.dict.getWord(doc.Tokens[0].ID) == eol {
+		// A first line without words is represented by its EOL token alone. The
+		// line break is written when the first token of the next line arrives, so
+		// the EOL text itself must not be emitted or every line shifts by one.
+		buf.Reset()
+	}
 	for _, t := range doc.Tokens[1:] {
 		// Only write out an EOL token that incremented the line
 		if t.Line == prevLine+1 {
